@@ -63,6 +63,9 @@ def case : P String := do
   | "lin" => do
     let a ← float; let b ← float; let n ← nat
     pure (resOut (fun (l : List Float) => joinSp (toString l.length :: l.map fo)) (linspace a b n))
+  | "i0" => do
+    let s ← strategyP; let v ← float; let pts ← listOf floats
+    pure (evalPoints "v" s (.d0 v) pts)
   | "i1" => do
     let mode ← next; let s ← strategyP
     let x ← floats; let f ← floats; let pts ← listOf floats
